@@ -121,7 +121,6 @@ func main() {
 			c2 := rules.NewCtx(p2, *tier, *verif)
 			pr2 := rules.Props(c2)[*prop]
 			for _, rr := range rules.RunProp(c2, pr2) {
-				rr.ID = rr.ID
 				rr.Doc = "[" + cf[0] + "/" + cf[1] + "] " + rr.Doc
 				for _, o := range rr.Obs {
 					o.Key = o.Key + "@" + cf[0] + "/" + cf[1]
